@@ -210,6 +210,19 @@ def book_evict(repo: Repo) -> List[Ob]:
     return obs
 
 
+def _earlier_handles_repointed(init: FuncInfo) -> bool:
+    """`<h>.uid = self.uid` inside a loop over the handle registry, under an identity test against merged containers"""
+    for l in [x for x in walk_no_nested(init.node) if isinstance(x, ast.For)]:
+        if not any(isinstance(y, ast.Attribute) and y.attr == "_instances" for y in ast.walk(l.iter)):
+            continue
+        for a in ast.walk(l):
+            if isinstance(a, ast.Assign) and any(isinstance(t, ast.Attribute) and t.attr == "uid" and src(t.value) != "self" for t in a.targets) and src(a.value) == "self.uid":
+                guards = [i for i in ast.walk(l) if isinstance(i, ast.If) and any(y is a for b in i.body for y in ast.walk(b))]
+                if any(any(isinstance(c, ast.Compare) and isinstance(c.ops[0], (ast.Is, ast.IsNot)) for c in ast.walk(g.test)) and "_containers" in src(g.test) for g in guards):
+                    return True
+    return False
+
+
 @rule("BOOK-merge")
 def book_merge(repo: Repo) -> List[Ob]:
     obs: List[Ob] = []
@@ -241,10 +254,45 @@ def book_merge(repo: Repo) -> List[Ob]:
                             other = cfg.reachable([m for m, l in cfg.succ[t] if l != lab])
                             if node in reach and cfg.must_pass_through(node, {t}):
                                 guarded = True
+            # stronger form: the container is compared (by identity) with *every* container merged so far – the receiving one
+            # included – through an accumulator that is filled on every iteration of the merge loop
+            from ..model import expand_src
+            once = False
+            loop = next((l for l in walk_no_nested(fi.node) if isinstance(l, ast.For) and any(x is n for x in ast.walk(l))), None)
+            if loop is not None:
+                arg_x = expand_src(fi.node, n.args[0]) if n.args else ""
+                accs = set()
+                for st in loop.body:
+                    if isinstance(st, ast.Expr) and method_call(st.value) and method_call(st.value)[1] in ("append", "add") and st.value.args \
+                            and isinstance(method_call(st.value)[0], ast.Name) and expand_src(fi.node, st.value.args[0]) == arg_x:
+                        accs.add(method_call(st.value)[0].id)
+                for t in [x for x in ast.walk(loop) if isinstance(x, ast.If) and any(y is n for b in x.body for y in ast.walk(b))]:
+                    for g in ast.walk(t.test):
+                        if isinstance(g, (ast.GeneratorExp, ast.ListComp)) and isinstance(g.generators[0].iter, ast.Name) and g.generators[0].iter.id in accs \
+                                and isinstance(g.elt, ast.Compare) and isinstance(g.elt.ops[0], (ast.Is, ast.IsNot)):
+                            once = True
+                # the same through uids: sound only while every handle of one container carries the same uid, i.e. when the
+                # constructor re-points the handles of earlier merges as well
+                hv = src(loop.target)
+                uid_accs = {method_call(st.value)[0].id for st in loop.body
+                            if isinstance(st, ast.Expr) and method_call(st.value) and method_call(st.value)[1] in ("append", "add") and st.value.args
+                            and isinstance(method_call(st.value)[0], ast.Name) and src(st.value.args[0]) == f"{hv}.uid"}
+                for t in [x for x in ast.walk(loop) if isinstance(x, ast.If) and any(y is n for b in x.body for y in ast.walk(b))]:
+                    for g in ast.walk(t.test):
+                        if isinstance(g, ast.Compare) and len(g.ops) == 1 and isinstance(g.ops[0], ast.NotIn) and src(g.left) == f"{hv}.uid" \
+                                and isinstance(g.comparators[0], ast.Name) and g.comparators[0].id in uid_accs:
+                            if fi.qualname == "CompositeEnvelope.__init__" and _earlier_handles_repointed(fi):
+                                once = True
             key = f"append_states#{sites}"
-            (obs.append(ok("BOOK-merge", fi, key, P, n, "merge is guarded against appending a container to itself")) if guarded else
-             obs.append(bad("BOOK-merge", fi, key, P, n,
-                            "append_states(other) is not guarded by `other is not <receiving container>`: merging two handles of one composite lists its product spaces and envelopes twice")))
+            if once:
+                obs.append(ok("BOOK-merge", fi, key, P, n, "a container is appended only if it is none of the containers merged so far (identity test against the accumulated list)"))
+            elif guarded:
+                obs.append(bad("BOOK-merge", fi, key, P, n,
+                               "append_states(other) is only guarded against the *receiving* container: a container reached through two of the given handles "
+                               "(behind another composite) is appended twice – its product spaces and envelopes are listed twice"))
+            else:
+                obs.append(bad("BOOK-merge", fi, key, P, n,
+                               "append_states(other) is not guarded by `other is not <receiving container>`: merging two handles of one composite lists its product spaces and envelopes twice"))
     if sites < 1:
         raise AnalysisError("BOOK-merge: no append_states call found")
     # moved product spaces: indices are refreshed after the merge and the spaces point at their new container
@@ -272,6 +320,11 @@ def book_merge(repo: Repo) -> List[Ob]:
                   for n in walk_no_nested(init.node))
     (obs.append(ok("BOOK-merge", init, "handles-repointed", P, init.node, "merged handles adopt the new container uid")) if repoint else
      obs.append(bad("BOOK-merge", init, "handles-repointed", P, init.node, "merged CompositeEnvelope handles are not re-pointed (ce.uid = self.uid missing): old handles see a stale container")))
+    # handles of *earlier* merges are not among the arguments: they can only be reached through the registry of handles
+    all_h = _earlier_handles_repointed(init)
+    (obs.append(ok("BOOK-merge", init, "earlier-handles-repointed", P, init.node, "every registered handle that names a merged container adopts the new uid")) if all_h else
+     obs.append(bad("BOOK-merge", init, "earlier-handles-repointed", P, init.node,
+                    "only the handles passed to the constructor are re-pointed: a handle of an earlier merge (ce1 after ce3 = CE(ce1, ce2); ce4 = CE(other, ce3)) keeps naming the absorbed container and sees a stale composite")))
     ptr = any(method_call(n) and method_call(n)[1] == "update_composite_envelope_pointers" for n in walk_no_nested(init.node))
     (obs.append(ok("BOOK-merge", init, "envelopes-repointed", P, init.node, "member envelopes are pointed at the new composite")) if ptr else
      obs.append(bad("BOOK-merge", init, "envelopes-repointed", P, init.node, "CompositeEnvelope.__init__ no longer calls update_composite_envelope_pointers()")))
@@ -313,6 +366,14 @@ def book_own(repo: Repo) -> List[Ob]:
             if isinstance(n, (ast.For, ast.comprehension)):
                 it = n.iter
                 if any(isinstance(x, ast.Attribute) and x.attr in REGISTRY for x in [it] + list(ast.walk(it))) and not any(isinstance(x, ast.Subscript) for x in [it] + list(ast.walk(it))):
+                    if fi.qualname == "CompositeEnvelope.__init__" and isinstance(n, ast.For):
+                        stores = [y for y in ast.walk(n) if isinstance(y, ast.Attribute) and isinstance(y.ctx, ast.Store)]
+                        def _guarded(y):
+                            return any(isinstance(i, ast.If) and any(z is y for b in i.body for z in ast.walk(b)) and "_containers" in src(i.test)
+                                       and any(isinstance(c, ast.Compare) and isinstance(c.ops[0], (ast.Is, ast.IsNot)) for c in ast.walk(i.test)) for i in ast.walk(n))
+                        if stores and all(_guarded(y) for y in stores):
+                            obs.append(ok("BOOK-own", fi, "registry-iteration", P, n, "the constructor walks the handle registry but writes only to handles whose container is (by identity) one of the merged ones"))
+                            continue
                     obs.append(bad("BOOK-own", fi, "registry-iteration", P, n if isinstance(n, ast.For) else it,
                                    "a method iterates over the process-wide registry of composite envelopes: unrelated composites can be altered"))
             # index writes
